@@ -279,6 +279,38 @@ def run(tier, seed):
                                  "run": f"twins-{x}-{fx}-{y}-{fy}", "env": pool[0],
                                  "params": DEFAULT_PARAMS, "steps": steps,
                                  "ref": ref_for(ref, steps), "timeout": 900})
+    # one calculation after another in a long session: every derivation object is thrown away
+    # (garbage collected) between the blocks, the next block builds new objects - of another
+    # Hamiltonian / variant - possibly at the same addresses
+    blocks = {
+        "mp": ["gs.mp.energy(0)", "gs.mp.energy(2)", "gs.mp.amplitude(1,ph,ia)",
+               "gs.mp.expectation_value(2,1)", "isr.mp.pp.overlap_precursor(1,ph,ph,ia,jb)"],
+        "re": ["gs.re.energy(0)", "gs.re.energy(2)", "gs.re.amplitude(1,ph,ia)",
+               "gs.re.expectation_value(2,1)", "isr.re.pp.amplitude_vector(ia,right)"],
+        "mps": ["gs.mps.energy(0)", "gs.mps.energy(2)", "gs.mps.amplitude(1,ph,ia)",
+                "gs.mps.expectation_value(2,1)", "gs.mps.overlap(2)"],
+        "ip": ["m.mp.ip.isr_matrix_block(1,h,h,i,j)", "isr.mp.ip.overlap_isr(1,h,h,i,j)"],
+        "ea": ["isr.mp.ea.overlap_isr(1,p,p,a,b)", "isr.mp.ea.s_root(2,p,p,a,b)"],
+    }
+    names = sorted(blocks)
+    for a in names:
+        for b in names:
+            if a == b:
+                continue
+            cross = (a == "re") != (b == "re")      # different Hamiltonians
+            modes = [(e, r) for e in (False, True) for r in range(3 if thorough else 2)] \
+                if cross else [(False, 0)]
+            for eph, rep in modes:
+                steps = [{"op": "req", "t": t} for t in blocks[a]] + [{"op": "dropall"}] + \
+                        [{"op": "req", "t": t} for t in blocks[b]] + [{"op": "dropall"}] + \
+                        [{"op": "req", "t": t} for t in reversed(blocks[a])]
+                steps = [st for st in steps if st["op"] != "req" or st["t"] in ref]
+                jobs.append({"kind": "c19", "seed": seed,
+                             "run": f"sessions-{a}-{b}-{int(eph)}-{rep}",
+                             "env": pool[rep], "params": dict(DEFAULT_PARAMS,
+                                                              heap_skew=rep * 5000,
+                                                              ephemeral=eph),
+                             "steps": steps, "ref": ref_for(ref, steps), "timeout": 900})
     # a request rejected half-way, then derivations that consume generic indices, then
     # requests whose explicit target names are the names the rejected request had touched
     for b, probes in REJECTED_THEN_USE:
@@ -440,6 +472,7 @@ def finish(tier, seed, ref, jobs, results, families, t0, reported, exit_code, tr
             fault_sites[site] = fault_sites.get(site, 0) + 1
         for s in r["steps"]:
             kind = {"bad": "reject", "dropcache": "cache-loss", "newobj": "cache-loss",
+                    "dropall": "cache-loss",
                     "sympy.clear_cache": "cache-loss", "dummy.skew": "dummy-skew",
                     "clock.jump": "clock-jump"}.get(s["op"])
             if kind:
@@ -504,6 +537,8 @@ def finish(tier, seed, ref, jobs, results, families, t0, reported, exit_code, tr
         "hash_seeds": envs, "configurations": confs,
         "distinct_registry_states": len(reg_states),
         "distinct_memo_cache_fill_states": len(fill_states),
+        "derivation_objects_rebuilt_at_a_dead_address": sum(
+            r["stats"].get("id_reuse", 0) for _, r, _ in ok),
         "simulated_clock": {"calls": clock_calls, "min": clock_lo, "max": clock_hi,
                             "callers": sorted(clock_callers),
                             "note": "no result depends on time"},
